@@ -70,9 +70,27 @@ def closure_def(E, cls, flag):
         E.claim_true('inputs-unmodified', same and cl.sigma == sigma)
     E.claim_true('result-is-not-an-input', out is not gamma and out is not u and not _np.shares_memory(out, gamma) and not _np.shares_memory(out, u))
     # repeatability: a second evaluation gives the same values
+    first = [out[i] for i in range(L)]
     out2 = cl.calculate(r, gamma)
     for i in range(L):
-        E.claim_eq('repeat[%d]' % i, out2[i], out[i])
+        E.claim_eq('repeat[%d]' % i, out2[i], first[i])
+    # no state carried over: the same closure object re-used with another potential / gamma of the same
+    # length (temperature sweep, second PRISM object) is a function of the *current* potential only
+    u2 = E.arr('v', L, default=-0.4)
+    g2 = E.arr('h', L, default=0.35)
+    cl.potential = u2
+    out3 = cl.calculate(r, g2)
+    for i in range(L):
+        if flag and bool(r[i] <= sigma):
+            E.claim_eq('reuse-core[%d]' % i, out3[i], -1.0 - g2[i])
+        elif base == 'MartynovSarkisov':
+            if E.sym:
+                E.assume((g2[i] - u2[i] + 0.5) >= 0)
+            elif g2[i] - u2[i] + 0.5 < 0:
+                continue
+            E.claim_eq('reuse-outside-shipped-form[%d]' % i, out3[i], shipped_ms(E, g2[i], u2[i]))
+        else:
+            E.claim_eq('reuse-outside[%d]' % i, out3[i], spec_closure(E, base, g2[i], u2[i]))
 
 
 class Dual:
